@@ -162,8 +162,10 @@ def _foreign_stores(ctx: Ctx, fi: FuncInfo):
         elif isinstance(n, ast.Call) and isinstance(n.func, ast.Name) and n.func.id == "setattr" and len(n.args) == 3:
             # setattr(module, name, value) where module comes from a list of foreign modules or is a foreign name
             a0 = n.args[0]
-            if isinstance(a0, ast.Name) and (is_foreign(a0.id) or a0.id in ("module", "mod", "target", "cls")):
-                out.append((n, f"setattr({norm(a0)}, ...)"))
+            # the object written to: a foreign module, or a loop variable ranging over (module, name) pairs / foreign modules
+            loopvars = {x.id for l in walk_own(fi.node) if isinstance(l, ast.For) for x in ast.walk(l.target) if isinstance(x, ast.Name)}
+            if isinstance(a0, ast.Name) and (is_foreign(a0.id) or a0.id in loopvars):
+                out.append((n, "setattr(<foreign module>, ...)"))
     return out
 
 
